@@ -12,6 +12,7 @@
 -/
 import SpecsModel.Lemmas.FaultInv
 import SpecsModel.Props.C04
+import SpecsModel.Props.C16
 namespace SpecsModel.C19
 open SpecsModel Alloc World
 
@@ -121,5 +122,30 @@ example :
       (World.step 100 w' (.createWith false false [])).2)
     = (.panic "injected destructor panic", [(0, [(0, 11), (1, 21)]), (1, [])], .e (.bool false), .opt none,
        .e (.ent ⟨1, 2⟩)) := by decide +kernel
+
+/-- `ChangeSet::clear` interrupted by a destructor panic (model `ChangeSet.clearFault`, tied to the code by the
+    `cs_clear_fault` lines of the changeset harness): whatever the position of the panicking destructor, every
+    accumulated amount is destroyed exactly once (`rest` is a permutation of the set's indices), the set reports
+    empty to every join, and it can be refilled like a new one. -/
+theorem changeset_interrupted_clear (ps : List (Nat × Amount)) (cs : ChangeSet)
+    (hh : ChangeSet.Holds cs (ChangeSet.expected ps)) (n : Nat) :
+    ∃ (cs' : ChangeSet) (rest : List Nat),
+      cs.clearFault n = Out.ok (cs', rest.map (ChangeSet.acc ps), decide (max n 1 ≤ rest.length)) ∧
+      rest.Perm cs.mask.toList ∧
+      (∀ i, cs'.mask.mem i = false) ∧ (∀ M, cs'.joinShared M = Out.ok []) ∧
+      (∀ qs, ∃ c2, cs'.extend qs = Out.ok c2 ∧ ChangeSet.Holds c2 (ChangeSet.expected qs)) := by
+  obtain ⟨cs', rest, h1, h2, _, h4, h5, h6⟩ := C16.clear_empties ps cs hh
+  refine ⟨cs', rest, ?_, h2, h4, h5, h6⟩
+  simp [ChangeSet.clearFault, h1]
+
+/-- Non-vacuity: a set built from three pairs (two for index 0), cleared while the second destructor panics:
+    the call panics, both accumulated amounts are destroyed, the set is empty. -/
+example :
+    (match (ChangeSet.new.extend [(0, [1]), (3, [2]), (0, [4])]) with
+     | .ok cs => (match cs.clearFault 2 with
+        | .ok (cs', d, p) => (d, p, cs'.mask.toList)
+        | _ => ([], false, [99]))
+     | _ => ([], false, [98]))
+    = ([[1, 4], [2]], true, []) := by decide +kernel
 
 end SpecsModel.C19
